@@ -30,7 +30,8 @@ AllFields == <<P(L("index")), Sep(","), P(L("index0")), Sep(","), P(L("revindex"
 KV == <<P(NameE("k")), Sep("="), P(NameE("v")), Sep(";")>>
 
 Conds == { <<BoolE(TRUE), "T">>, <<BoolE(FALSE), "F">>, <<Bin(">", NameE("v"), IntE(1)), ">1">>,
-           <<TestE(NameE("v"), FALSE, "odd", <<>>), "odd">>, <<Bin("==", NameE("v"), IntE(8)), "=8">> }
+           <<TestE(NameE("v"), FALSE, "odd", <<>>), "odd">>, <<Bin("==", NameE("v"), IntE(8)), "=8">>,
+           <<Bin("<", L("index0"), IntE(2)), "loop<2">>, <<Un("not", L("first")), "notfirst">>, <<L("last"), "last">> }
 
 C1(s, he)      == [tag |-> "for-fields", n |-> s[2],
                    body |-> <<ForS("", "v", s[1], NoE, <<P(NameE("v")), Sep(":")>> \o AllFields, IF he THEN <<Text("E")>> ELSE <<>>, he)>>]
